@@ -40,10 +40,13 @@ def driver(cinco, desc, root_key, seed, n_traces, length):
     for _ in range(n_traces):
         w = persist.World(cinco, desc, "trace", root_key)
         events = []
+        pending = []
         try:
             for _ in range(length):
                 r = rng.random()
-                if r < 0.6:
+                if pending:
+                    ev = pending.pop(0)
+                elif r < 0.6:
                     which = rng.choice(["pw", "sub.tok", "v1", "v1.sec", "v1.inner.tok", "v1.inner.v2", "v1.inner.v2.s2", "items", "api"])
                     path, key = which.rsplit(".", 1) if "." in which else ("", which)
                     p = path.split(".") if path else []
@@ -60,6 +63,9 @@ def driver(cinco, desc, root_key, seed, n_traces, length):
                     ev = {"op": "Set", "p": p, "k": key, "v": v}
                 elif r < 0.88:
                     ev = {"op": "RoundTrip", "fmt": rng.choice(["json", "yaml", "bson", "xml", "pickle"])}
+                    if rng.random() < 0.25:
+                        # ... every key file gets a new key, and the configuration is saved again
+                        pending.extend([{"op": "Rekey"}, {"op": "RoundTrip", "fmt": rng.choice(["json", "yaml", "bson", "xml", "pickle"])}])
                 else:
                     m = rng.choice([None, "", "*", "XXXX"])
                     ev = {"op": "Render", "virtual": rng.random() < 0.5, "mask": {"m": "none"} if m is None else {"m": "str", "s": list(m)},
@@ -94,7 +100,7 @@ def run_keyfamily(prop, invs, props, tier, seed):
     # quick: the placement in which every type names a key file, plus two seeded ones
     chosen = PLACEMENTS if not quick else [("1", "1", "1", "")] + rng.sample([p for p in PLACEMENTS if p != ("1", "1", "1", "")], 2)
     depth = 2 if quick else 3
-    relevant = {"C02": ("RoundTrip", "Rebuild", "Set", "Adopt", "Render"), "C03": ("RoundTrip", "Rebuild", "Set", "Adopt"), "C10": ("Render", "Set"), "C06": ("Set", "Adopt")}[prop]
+    relevant = {"C02": ("RoundTrip", "Rebuild", "Set", "Adopt", "Render"), "C03": ("RoundTrip", "Rebuild", "Set", "Adopt", "Rekey"), "C10": ("Render", "Set"), "C06": ("Set", "Adopt")}[prop]
     tot = dict(states=0, transitions=0, cases=0, traces=0, events=0, tstates=0)
     by_op = {}
     distinct = set()
